@@ -618,6 +618,7 @@ def main():
     chk.cov["outcomes"] = stat
     chk.cov["generators"] = per_profile
     chk.cov["known_keys_confirmed"] = sorted(confirmed)
+    chk.violations.sort(key=lambda v: not v[3])     # failing inputs first
     if trans_problems:
         chk.violation("translator", "translator cannot read the directive interpreter: " + "; ".join(trans_problems[:4]),
                       {"kind": "translator", "problems": trans_problems}, found=False)
